@@ -801,6 +801,7 @@ type job struct {
 }
 
 func TestCheck(t *testing.T) {
+	vk.UseT(t)
 	r := vk.Start("C03", "model_checking", 170*time.Second, 24*time.Minute)
 	cx := &ctx{r: r, roots: vk.NewSet(), states: vk.NewSet()}
 	if r.Replay != "" {
